@@ -16,7 +16,7 @@ LEVEL_TEXT = ('Bounded symbolic verification of the full loop, per community kin
               'dmzlink-bw, esi-label, mac-mobility, es-import, router-mac), communities (numeric and every well-known name), large '
               'communities.')
 LEVEL_NOTE = 'MAC addresses and the traffic-rate float are concretised; JSON / header parsing stubbed (vf/env/rest.py). No digit-class split is needed: decimal text is handled lazily (ropes).'
-LEVEL_ADDED = 'Also: two communities of the same kind with different field values in one attribute. Loops that start from each registered well-known *name*.'
+LEVEL_ADDED = 'Also: two communities of the same kind with different field values in one attribute. Loops that start from each registered well-known *name*. The send/update view as well as json_to_bin.'
 TECHNIQUE = 'symbolic execution of Update.parse and the json_to_bin view in a loop (CrossHair+z3), independent RFC encoder as reference for the octets'
 EXPLANATION = 'C17: encode (reference) -> decode -> REST text -> encode (yabgp) -> decode loop per community kind.'
 BOUNDS = 'one or two communities per attribute; all numeric fields symbolic over their wire width; MAC / float values from pools'
